@@ -15,6 +15,11 @@ Decided (structural necessary conditions; the cursor arithmetic over histories i
  S6 no read of the receive buffer while it is posted: in every console function, after the receive buffer has been
     handed to `add` no statement reachable without an intervening pop_used reads or writes it (C19.Q6) - a byte must be
     copied out before the buffer is re-posted, or the device may already have overwritten it.
+ S7 reader arithmetic (one call): every function that hands received bytes to the caller (recv, embedded_io read /
+    fill_buf / consume) is path-enumerated with the queue helpers opaque and folded over (cursor c, received length p,
+    caller buffer length L, pop flag): it exposes exactly bytes [c, c+n) of the receive buffer with
+    n = min(L, p-c) (recv: byte c iff c < p; fill_buf: [c, p)), in order, and advances the cursor by exactly the number
+    of bytes handed out (consume: by the amount, never past p).
  S4 notification protocol on both queues is C05.N3.
 Not decided: equality of delivered and produced byte streams (cursor arithmetic across interleavings of recv / read /
 fill_buf / consume) - value reasoning over histories.
@@ -27,7 +32,7 @@ EXPLANATION = ("The console's posting, finishing and sending helpers are loop-fr
                "are folded over the small state (token present, cursor, pending length) and checked for guards, field writers and "
                "operand provenance.")
 CONFIGS = ['def', 'alloc', 'def-rel']    # these drivers need the `alloc` feature
-FLOORS = {'trait_writers': {'*': 2, 'alloc': 1}, 'poster_fns': 1, 'finisher_fns': 1, 'send_fns': 2}
+FLOORS = {'reader_fns': {'*': 4, 'alloc': 1}, 'trait_writers': {'*': 2, 'alloc': 1}, 'poster_fns': 1, 'finisher_fns': 1, 'send_fns': 2}
 DRV = 'device::console::VirtIOConsole'
 
 
@@ -90,6 +95,7 @@ def run(F, R):
     for b in senders:
         s3_send(F, R, M, b, roles, rxq)
     s5_trait_writers(F, R, set(x['id'] for x in senders))
+    s7_reader_arithmetic(F, R, usz)
     from .C19 import q6_no_access_after_post
     q6_no_access_after_post(F, R, M, roles, rule='S6', only=lambda bb: bb.get('impl_adt') == DRV or DRV in (bb.get('impl_self') or ''))
 
@@ -310,3 +316,137 @@ def s3_send(F, R, M, b, roles, rxq):
         R.check(ok and src_ok and q != rxq, 'S3', '%s:send-shape' % b['id'], site(sg, n), 'one device-readable element = the caller\'s bytes, nothing writable, on the transmit queue',
                 'send must place exactly the caller\'s bytes on the transmit queue: readable=%s writable=%s queue=%s caller-bytes=%s' % (
                     len(ins) if ins is not None else None, len(outs) if outs is not None else None, q, src_ok))
+
+
+def s7_reader_arithmetic(F, R, usz):
+    cf = cursor_field(F, usz)
+    if cf is None:
+        raise Undecided('cursor field of the console not identified')
+    pf = [u for u in usz if u != cf][0]
+    helpers = ('wait_for_receive', 'poll_retrieve', 'finish_receive')
+    nread = 0
+    for b in F.bodies.values():
+        if not F.handwritten(b) or not (b.get('impl_adt') == DRV or DRV in (b.get('impl_self') or '')) or b['kind'] != 'AssocFn':
+            continue
+        if b['name'] in helpers or has_loop(b):
+            continue
+        sg = supergraph(F, b['id'], opaque=lambda t, bb: has_loop(bb) or bb['name'] in helpers, tag='s7')
+        where = fn_site(F, b['id'])
+        try:
+            paths = PathEnum(sg).run()
+        except PathLimit:
+            continue
+        # readers: functions whose paths index the receive buffer with the cursor or store the cursor
+        touches = False
+        for p in paths:
+            for e in p.effects:
+                if e[0] == 'store' and e[2][2] and e[2][2][-1][0] == 'f' and e[2][2][-1][1] == cf:
+                    touches = True
+            if p.ret is not None and cf in fmt(p.ret) and 'queue_buf' in fmt(p.ret):
+                touches = True
+        if not touches or b['name'] in ('new',):
+            continue
+        nread += 1
+        fn = sg.entry_fn
+        ptys = [l['ty'] for l in fn['locals'][1:fn['arg_count'] + 1]]
+        bad = None
+        rows = 0
+        for c in (0, 1, 3):
+            for pl in (c, c + 1, c + 2, c + 5):
+                for L in (0, 1, 2, 4, 9):
+                    for flag in (0, 1):
+                        def leaf(t, c=c, pl=pl, L=L, flag=flag):
+                            if t[0] in ('load0', 'load') and t[1][2] and t[1][2][-1][0] == 'f':
+                                if t[1][2][-1][1] == cf:
+                                    return c
+                                if t[1][2][-1][1] == pf:
+                                    return pl
+                            if t[0] == 'call' and t[2].endswith('::len'):
+                                return L
+                            if t[0] == 'call' and t[2].endswith('::is_empty'):
+                                return int(L == 0)
+                            if t[0] == 'discr' and t[1][0] == 'call' and any(t[1][2].endswith('::' + h) for h in helpers):
+                                return 0
+                            if t[0] == 'param':
+                                ty = ptys[t[1] - 1] if t[1] - 1 < len(ptys) else ''
+                                return flag if ty == 'bool' else L
+                            raise Unfoldable(fmt(t)[:80])
+                        fo = Folder(leaf)
+                        try:
+                            hit = [p for p in paths if path_holds(fo, p)]
+                        except Unfoldable as e:
+                            bad = 'unfoldable: %s' % e
+                            break
+                        rows += 1
+                        if len(hit) != 1:
+                            bad = 'c=%d p=%d L=%d: %d feasible paths' % (c, pl, L, len(hit))
+                            break
+                        p = hit[0]
+                        desc = 'cursor=%d received=%d caller-length/amount=%d flag=%d' % (c, pl, L, flag)
+                        cur_st = [e for e in p.effects if e[0] == 'store' and e[2][2] and e[2][2][-1][0] == 'f' and e[2][2][-1][1] == cf]
+                        try:
+                            newc = fo.ev(cur_st[-1][3]) if cur_st else c
+                            # ranges of the receive buffer exposed on this path
+                            exposed = []
+                            for e in p.effects:
+                                if e[0] == 'call' and (e[2].endswith('Index::index') or e[2].endswith('IndexMut::index_mut')) and 'queue_buf' in fmt(e[3][0]):
+                                    r = e[3][1]
+                                    if r[0] == 'agg' and 'Range' in r[1]:
+                                        vals = [fo.ev(x) for x in r[2]]
+                                        if r[1].endswith('::Range'):
+                                            exposed.append((vals[0], vals[1]))
+                                        elif r[1].endswith('::RangeTo'):
+                                            exposed.append((0, vals[0]))
+                                        elif r[1].endswith('::RangeFrom'):
+                                            exposed.append((vals[0], None))
+                            byte_at = None
+                            if p.ret is not None:
+                                for x in subterms(p.ret):
+                                    if x[0] in ('load0', 'load') and 'queue_buf' in fmt(x) and x[1][2] and x[1][2][-1][0] == 'idx':
+                                        byte_at = fo.ev(x[1][2][-1][1])
+                        except Unfoldable as e:
+                            bad = 'unfoldable: %s' % e
+                            break
+                        if p.panicked:
+                            # only arithmetic panics on reachable states (c <= p) are defects; consume may assert amt <= p - c
+                            if b['name'] == 'consume' and c + L > pl:
+                                continue
+                            bad = '%s: panics (%s)' % (desc, p.end[2] if p.end and len(p.end) > 2 else p.end)
+                            break
+                        if exposed:
+                            n = min(L, pl - c) if b['name'] != 'fill_buf' else pl - c
+                            want = (c, c + n)
+                            if any(x != want for x in exposed):
+                                bad = '%s: hands out receive-buffer bytes %s, expected [%d, %d)' % (desc, exposed, want[0], want[1])
+                                break
+                            if b['name'] != 'fill_buf' and newc != c + n:
+                                bad = '%s: %d bytes handed out but the cursor moves from %d to %d' % (desc, n, c, newc)
+                                break
+                            if b['name'] == 'fill_buf' and newc != c:
+                                bad = '%s: fill_buf moves the cursor' % desc
+                                break
+                        elif byte_at is not None:
+                            if byte_at != c or not (c < pl):
+                                bad = '%s: returns the byte at %s, expected the byte at the cursor (only when cursor < received)' % (desc, byte_at)
+                                break
+                            if newc != c + (1 if (flag and cur_st) else 0) or (flag and not cur_st):
+                                bad = '%s: one byte returned (pop=%d) but the cursor moves from %d to %d' % (desc, flag, c, newc)
+                                break
+                        elif cur_st and err_variant(p.ret) in ('Ok', None):
+                            # cursor advanced without exposing bytes: consume(amt)
+                            if newc != c + L or newc > pl:
+                                bad = '%s: cursor moves from %d to %d' % (desc, c, newc)
+                                break
+                    if bad:
+                        break
+                if bad:
+                    break
+            if bad:
+                break
+        R.tables += rows
+        if bad and bad.startswith('unfoldable'):
+            R.abstain('S7', b['id'], bad, where)
+            continue
+        R.check(bad is None, 'S7', '%s:reader-arithmetic' % b['id'], where, 'exposes exactly the unread bytes it reports and advances the cursor by that amount (%d rows)' % rows,
+                'console reader arithmetic: %s' % bad)
+    R.count('reader_fns', nread)
